@@ -163,8 +163,15 @@ func VerifC12_BacklogBound() {
 	verif.Assume(to >= 1 && to < 1<<60)
 	q := NewQueueBlockingLimiterFromConfig(d, QueueLimiterConfig{Ordering: OrderingFIFO, MaxBacklogSize: maxB, MaxBacklogTimeout: time.Duration(to), BacklogEvictDoneCtx: evict, MetricRegistry: reg})
 	n := verif.Choice("prefilled", verif.Tiered(4, 7))
+	// the callers already blocked: when cancellation does not evict (the default) their contexts may
+	// have been cancelled at any instant (or never) - they are still blocked and still count
+	wnames := []string{"w0", "w1", "w2", "w3", "w4", "w5", "w6"}
 	for i := 0; i < n; i++ {
-		q.backlog.push(context.Background())
+		pctx := context.Background()
+		if !evict {
+			pctx = verif.CancelCtx(wnames[i])
+		}
+		q.backlog.push(pctx)
 	}
 	size, ok := reg.gauges[core.MetricQueueSize]()
 	verif.Assert("gauge-reports-backlog", ok && size == float64(n))
@@ -180,4 +187,124 @@ func VerifC12_BacklogBound() {
 	} else {
 		verif.Reach("waited")
 	}
+}
+
+// VerifC11_Queue_ThreeParked_GiveUp (event-order): three callers parked in arrival order w0, w1, w2
+// (verif.SpawnAfter), cancellation eviction enabled, w0's context cancelled by the environment at any
+// moment (in particular between the releaser's peek and its hand-off) or never; then the holder
+// completes.  Whoever is served, no caller that is ahead of it in the configured order is still
+// waiting (FIFO: the longest-waiting still-waiting caller; LIFO: the most recent).
+//
+//verif:harness property=C11 theory=bv tier=thorough timers=off unwind=3 unwindcut=1 clock=frozen maxpaths=60000
+func VerifC11_Queue_ThreeParked_GiveUp() {
+	ord := []QueueOrdering{OrderingFIFO, OrderingLIFO}[verif.Choice("ordering", 2)]
+	o := verifQueueWaiters(3, ord, true, true)
+	verif.Assert("served-in-configured-order-among-still-waiting", o.inOrder)
+	verif.Reach("end")
+}
+
+// VerifC11_Release_AmongStillWaiting: three callers parked in arrival order; an arbitrary subset of
+// them has just given up (time-out / cancellation: they no longer listen on their hand-off channel
+// but have not removed themselves from the backlog yet - the window a release can fall into).  One
+// release: whoever receives the token, no caller ahead of it in the configured order is still
+// listening; at most one caller is served; a caller that gave up is never served.
+//
+//verif:harness property=C11 theory=bv tier=quick replay=engine
+func VerifC11_Release_AmongStillWaiting() {
+	d := &recLimiter{}
+	verifGrantAll = true
+	lifo := verif.Choice("ordering", 2) == 1
+	ord := OrderingFIFO
+	if lifo {
+		ord = OrderingLIFO
+	}
+	q := NewQueueBlockingLimiterFromConfig(d, QueueLimiterConfig{Ordering: ord, BacklogEvictDoneCtx: verif.Choice("evictDoneCtx", 2) == 1})
+	var chans [3]<-chan core.Listener
+	var listening [3]bool
+	for i := 0; i < 3; i++ {
+		_, chans[i] = q.backlog.push(context.WithValue(context.Background(), "waiter", i))
+		listening[i] = verif.Bool("listening")
+		verif.Offer(chans[i], listening[i], nil)
+	}
+	(&QueueBlockingListener{delegateListener: &recListener{}, limiter: q}).OnSuccess()
+	var served [3]bool
+	nServed := 0
+	for i := 0; i < 3; i++ {
+		verif.Offer(chans[i], false, nil) // from here on the harness only polls what was handed over
+		select {
+		case l, ok := <-chans[i]:
+			served[i] = ok && l != nil
+		default:
+		}
+		nServed += verif.B2I(served[i])
+	}
+	verif.Assert("release-serves-at-most-one", nServed <= 1)
+	for i := 0; i < 3; i++ {
+		verif.Assert("release-never-serves-a-caller-that-gave-up", verif.Implies(served[i], listening[i]))
+		for j := 0; j < 3; j++ {
+			ahead := j < i
+			if lifo {
+				ahead = j > i
+			}
+			if ahead {
+				verif.Assert("release-serves-next-in-order-among-still-waiting", verif.Not(verif.And(served[i], listening[j])))
+			}
+		}
+	}
+	verif.Reach("end")
+}
+
+// verifReleaseKeepsWaiters: two callers parked (an arbitrary subset has just given up and no longer
+// listens), up to three releases whose delegate.Acquire on behalf of the next waiter is granted or
+// refused arbitrarily (refused = another caller barged in between the token's release and the
+// re-acquire).  Returns, per waiter, whether it was served and whether it is still in the backlog.
+func verifReleaseKeepsWaiters(releases int) (listening, served, queued [2]bool, q *QueueBlockingLimiter) {
+	d := &recLimiter{}
+	verifGrantAll = false
+	ord := []QueueOrdering{OrderingFIFO, OrderingLIFO}[verif.Choice("ordering", 2)]
+	q = NewQueueBlockingLimiterFromConfig(d, QueueLimiterConfig{Ordering: ord})
+	var chans [2]<-chan core.Listener
+	var ctxs [2]context.Context
+	for i := 0; i < 2; i++ {
+		ctxs[i] = context.WithValue(context.Background(), "waiter", i)
+		_, chans[i] = q.backlog.push(ctxs[i])
+		listening[i] = verif.Bool("listening")
+		verif.Offer(chans[i], listening[i], nil)
+	}
+	for k := 0; k < releases; k++ {
+		(&QueueBlockingListener{delegateListener: &recListener{}, limiter: q}).OnSuccess()
+	}
+	for i := 0; i < 2; i++ {
+		verif.Offer(chans[i], false, nil)
+		select {
+		case l, ok := <-chans[i]:
+			served[i] = ok && l != nil
+		default:
+		}
+		for e := q.backlog.list.Front(); e != nil; e = e.Next() {
+			if e.Value.(*queueElement).ctx == ctxs[i] {
+				queued[i] = true
+			}
+		}
+	}
+	return
+}
+
+// VerifC12_Release_KeepsUnservedWaitersQueued: the backlog contains exactly the callers currently
+// blocked: a caller that is still listening and was not served by the releases so far is still in
+// the backlog (a release that fails to re-acquire must not drop it), a served caller has left it,
+// and the reported size is the number of elements.
+//
+//verif:harness property=C12 theory=bv tier=quick replay=engine
+func VerifC12_Release_KeepsUnservedWaitersQueued() {
+	n := 1 + verif.Choice("releases", 2)
+	listening, served, queued, q := verifReleaseKeepsWaiters(n)
+	cnt := 0
+	for i := 0; i < 2; i++ {
+		verif.Assert("blocked-caller-stays-in-backlog", verif.Implies(verif.And(listening[i], verif.Not(served[i])), queued[i]))
+		verif.Assert("served-caller-left-backlog", verif.Implies(served[i], verif.Not(queued[i])))
+		cnt += verif.B2I(queued[i])
+	}
+	verif.Assert("queue-size-is-elements", int(q.backlog.len()) == cnt)
+	verif.Reach("end")
 }
